@@ -673,7 +673,7 @@ ASSUMPTIONS = [
 
 def run(tier, seed):
     core.standard_run(PID, tier, seed, {
-        'model_vos': ['Mon/AppMon', 'Gen/Tables'], 'table_sections': ['c20'],
+        'model_vos': ['Mon/AppMon', 'Gen/Tables'], 'table_sections': ['c20', 'source_shape'],
         'preamble': PREAMBLE, 'run_fn': RUN_FN, 'in_type': IN_TYPE,
         'gen_case': gen_case, 'impl_run': impl_run, 'expected': expected, 'case_term': case_term,
         'oracle': oracle, 'nontrivial': nontrivial,
